@@ -120,7 +120,7 @@ func count(name string, n int64) {
 // Main is the entry point of the generated rtmain binary: rtmain <mode> <seed> [key=value ...]
 func Main() {
 	if len(os.Args) < 3 {
-		fmt.Fprintln(os.Stderr, "usage: rtmain <seq|conc|lock> <seed> [k=v ...]")
+		fmt.Fprintln(os.Stderr, "usage: rtmain <seq|conc|lock|dfs> <seed> [k=v ...]")
 		os.Exit(3)
 	}
 	mode := os.Args[1]
@@ -146,6 +146,18 @@ func Main() {
 		}
 	}
 	sort.Slice(entries, func(i, j int) bool { return entries[i].Name < entries[j].Name })
+	if n := geti("pick", 0); n > 0 && n < len(entries) {
+		// a spread of n mocks, rotated by the seed
+		var sel []Entry
+		off := int(seed % int64(len(entries)))
+		if off < 0 {
+			off = -off
+		}
+		for k := 0; k < n; k++ {
+			sel = append(sel, entries[(off+k*len(entries)/n)%len(entries)])
+		}
+		entries = sel
+	}
 	for idx, e := range entries {
 		if only != "" && e.Name != only {
 			continue
@@ -162,6 +174,8 @@ func Main() {
 			runConc(e, rng, geti("histories", 4), geti("ops", 30))
 		case "lock":
 			runLock(e, rng, geti("stress", 4), params["real"] == "1")
+		case "dfs":
+			runDFS(e, rng, geti("maxexec", 3000))
 		}
 	}
 	cmu.Lock()
